@@ -418,6 +418,8 @@ def analyse(obs: Obs, prog):
         def pairing(t, as_dict):
             """t pairs the visited addresses with the per-site list, in order: zip(traces[.keys()], lst) as a value, dict(zip(..)), or the comprehension over that zip"""
             ks = (TR_, tkeys)
+            while not as_dict and is_t(t, "call") and t[1] in (G("list"), G("tuple")) and len(t[2]) == 1 and not t[3]:
+                t = t[2][0]  # list(zip(..)): the same pairs
             if not as_dict:
                 if is_t(t, "call") and t[1] == G("zip") and len(t[2]) == 2 and t[2][0] in ks and t[2][1] == bl and not t[3]:
                     return True
